@@ -217,6 +217,7 @@ pub fn run(ctx: &Ctx) -> i32 {
     });
     report.extra.insert("sites".into(), json!(SITES.iter().map(|s| format!("{s:?}")).collect::<Vec<_>>()));
     report.extra.insert("codes".into(), json!(256));
+    crate::also_in_release_build(&mut report, "C20", ctx);
     report.finish()
 }
 
